@@ -366,6 +366,25 @@ func (g *Gen) closureIdentity(d int) []Stmt {
 		emit(bin("==", &Index{E: v("fs"), K: num(1)}, &Index{E: v("fs"), K: num(2)}))}
 }
 
+// localFuncScope: in `local f = function ... f ... end` the body's f is the f in scope BEFORE the
+// statement (a global or an outer local); only `local function f` refers to itself.
+func (g *Gen) localFuncScope(d int) []Stmt {
+	g.use("local-function-expression-scope")
+	f, h := g.fresh("lfs"), g.fresh("lfr")
+	var pre Stmt = set(v(f), str("outer-global"))
+	if g.R.Bool() {
+		pre = local1(f, g.litInt())
+	}
+	var fe Expr = &Func{Body: []Stmt{ret(v(f))}}
+	if g.R.Intn(3) == 0 {
+		fe = &Paren{E: fe}
+	}
+	return []Stmt{pre, &Local{Names: []string{f}, Es: []Expr{fe}}, emit(call("type", call(f)), call(f)),
+		&LocalFunc{X: h, F: &Func{Params: []string{"n"}, Body: []Stmt{
+			&If{C: bin("==", v("n"), num(0)), Then: []Stmt{ret(call("type", v(h)))}}, ret(call(h, bin("-", v("n"), num(1))))}}},
+		emit(call(h, num(2)))}
+}
+
 // nestedBlockClosure: the closure is created in a nested if/do/loop of the loop body and captures
 // a local of the loop body: each iteration still has its own instance.
 func (g *Gen) nestedBlockClosure(d int) []Stmt {
